@@ -24,6 +24,9 @@ Trace events (one list per (program, simulation), merged by the parent), all dat
   ["repaircost", day, "program"|"natural", amount, emission_id]     increments of EmisInfo cost totals
   ["fuflag", day, schedule_method, kind, site, rate, latest_detection_day, n_detected_rates, site_latest_tagging_day]
                                                           precedes the outermost "fuq" of an insertion (C09)
+  ["fudec", day, method, [[site, rate], ...] pool before, detection counter, [[site, rate], ...] kept]
+                                                          one per call of _filter_candidates_by_proportion (C09)
+  ["fupool", day, method, [[site, rate, rate_long, n_detected_rates], ...]]   candidate pool after update (C09)
   ["sitemeas", day, method, site, measured_rate, survey_start_day]   site-level measurement at the completion
                                                           of a screening survey (zero when nothing detected) (C09)
   ["fuqsnap", day, schedule_method, [[class, site, rate], ...]]     follow-up queue in pop order (from a copy)
@@ -260,6 +263,43 @@ def install_wrappers():
 
     if "get_workplan" not in FollowUpMobileSchedule.__dict__:
         FollowUpMobileSchedule.get_workplan = fu_get_workplan
+
+    # --- C09: flagging decisions and the candidate pool at the end of every update (observation only) ----
+    try:
+        orig_flt = SiteLevelMethod._filter_candidates_by_proportion
+
+        @functools.wraps(orig_flt)
+        def flt(self):
+            try:
+                before = [[str(p.site_id), p.rate_at_site] for p in self._candidates_for_flags]
+                cnt = self._detection_count
+            except Exception:
+                before, cnt = None, None
+            out = orig_flt(self)
+            try:
+                EVENTS.append(["fudec", CTXT["day"], self._name, before, cnt,
+                               [[str(p.site_id), p.rate_at_site] for p in self._candidates_for_flags]])
+            except Exception:
+                pass
+            return out
+
+        SiteLevelMethod._filter_candidates_by_proportion = flt
+        inner_upd = SiteLevelMethod.update
+
+        @functools.wraps(inner_upd)
+        def upd_pool(self, current_date):
+            out = inner_upd(self, current_date)
+            try:
+                EVENTS.append(["fupool", di(current_date), self._name,
+                               [[str(p.site_id), p.rate_at_site, getattr(p, "rate_at_site_long", None),
+                                 len(p._detected_rates)] for p in self._candidates_for_flags]])
+            except Exception:
+                pass
+            return out
+
+        SiteLevelMethod.update = upd_pool
+    except Exception:
+        pass
 
     # --- C09: what a site-level screening survey measured (observation only) ---------------------
     try:
